@@ -35,7 +35,9 @@ ASSUMPTIONS = [
 ]
 
 MAIN = "file:///zcv/main.conf"
-SCHEMA = '<schema><multikey name="k" attribute="uses"/><key name="o" default="d"/></schema>'
+SCHEMA = ('<schema><sectiontype name="s2"><multikey name="k" attribute="uses"/></sectiontype>'
+          '<sectiontype name="s"><multikey name="k" attribute="uses"/><multisection name="*" type="s2" attribute="subs"/></sectiontype>'
+          '<multikey name="k" attribute="uses"/><key name="o" default="d"/><multisection name="*" type="s" attribute="subs"/></schema>')
 
 NAMES = ["a", "A", "b", "c"]
 VALUES = ["v", "w", "", "$b", "$$b", "${B}x", "  p  q ", "$a", "p q"]
@@ -53,12 +55,18 @@ CORE = [("d", "a", "v"), ("d", "a", "w"), ("d", "A", "v"), ("d", "a", "$b"), ("d
 DEEP = [("d", "a", "v"), ("d", "A", "w"), ("u", "$a"), ("[",), ("]",), ("R",)]
 
 
+# definitions and uses inside and after sections (a definition is not local to the section it is
+# written in), sections opened in one resource around an include
+SECT = [("d", "a", "v"), ("d", "A", "w"), ("u", "$a"), ("[",), ("]",), ("<",), (">",)]
+
+
 def render(steps, maxdepth=2):
     """steps -> resources dict or None when the bracket structure is not canonical."""
     texts = {MAIN: []}
     stack = [MAIN]
     n = 0
     last_closed = None
+    opened, kinds = {}, {}
     for st in steps:
         if st[0] == "[":
             if len(stack) > maxdepth:
@@ -77,6 +85,18 @@ def render(steps, maxdepth=2):
             if last_closed is None or last_closed in stack:
                 return None
             texts[stack[-1]].append("%%include %s" % last_closed.rsplit("/", 1)[1])
+        elif st[0] == "<":
+            depth = sum(opened.get(u, 0) for u in stack)
+            if depth >= 2:
+                return None
+            texts[stack[-1]].append("<s>" if depth == 0 else "<s2>")
+            opened[stack[-1]] = opened.get(stack[-1], 0) + 1
+            kinds.setdefault(stack[-1], []).append("s" if depth == 0 else "s2")
+        elif st[0] == ">":
+            if not opened.get(stack[-1]):
+                return None
+            opened[stack[-1]] -= 1
+            texts[stack[-1]].append("</%s>" % kinds[stack[-1]].pop())
         elif st[0] == "d":
             texts[stack[-1]].append(("%%define %s %s" % (st[1], st[2])))
         else:
@@ -108,6 +128,45 @@ def _zc():
     return _STATE["ZConfig"], _STATE["MemLoader"], _STATE["schema"]
 
 
+def flatten(cfg):
+    """The values of all 'k' lines: in reading order for a text without sections, sorted otherwise."""
+    if not cfg.subs:
+        return list(cfg.uses)
+    vals = list(cfg.uses)
+    for s1 in cfg.subs:
+        vals.extend(s1.uses)
+        for s2 in s1.subs:
+            vals.extend(s2.uses)
+    return sorted(vals)
+
+
+def load_by_hand(resources):
+    """The documented building blocks used directly: a parser object driven by hand with the
+    caller's own table of definitions.  -> (outcome, table)"""
+    ZConfig, MemLoader, sch = _zc()
+    import ZConfig.cfgparser
+    loader = MemLoader(sch)
+    loader.resources = resources
+    table = {}
+    try:
+        r = loader.openResource(MAIN)
+        try:
+            sm = loader.createSchemaMatcher()
+            ZConfig.cfgparser.ZConfigParser(r, loader, table).parse(sm)
+            cfg = sm.finish()
+        finally:
+            r.close()
+        return ("ok", flatten(cfg)), table
+    except ZConfig.ConfigurationSyntaxError as e:
+        return ("reject", "syntax", type(e).__name__), table
+    except ZConfig.ConfigurationError as e:
+        return ("reject", "other", type(e).__name__), table
+    except RecursionError:
+        return ("internal", "RecursionError"), table
+    except Exception as e:  # noqa
+        return ("internal", type(e).__name__ + ":" + str(e)[:80]), table
+
+
 def load(resources, schema=None, loader=None):
     ZConfig, MemLoader, sch = _zc()
     if loader is None:
@@ -115,7 +174,7 @@ def load(resources, schema=None, loader=None):
     loader.resources = resources
     try:
         cfg, _ = loader.loadURL(MAIN)
-        return ("ok", list(cfg.uses))
+        return ("ok", flatten(cfg))
     except ZConfig.ConfigurationSyntaxError as e:
         return ("reject", "syntax", type(e).__name__)
     except ZConfig.ConfigurationError as e:
@@ -145,19 +204,26 @@ def load_extended(resources):
     return load(resources, loader=loader)
 
 
-def reference(resources):
+def reference(resources, defs=None):
+    defs = {} if defs is None else defs
     try:
-        events, defs = model.ref_read(resources, MAIN, env=dict(os.environ))
+        events, defs = model.ref_read(resources, MAIN, env=dict(os.environ), defs=defs)
     except model.Reject as e:
         return ("reject", e.kind)
     except model.Unspecified as e:
         return ("unspec", e.zone)
     except KeyError:
         return ("unspec", "outside-domain")
+    sections = False
     for ev in events:
-        if ev[0] in ("open", "close", "import") or (ev[0] == "key" and ev[1].lower() != "k"):
+        if ev[0] == "open" and ev[1].lower() in ("s", "s2") and not ev[2]:
+            sections = True
+        elif ev[0] == "close":
+            pass
+        elif ev[0] in ("open", "import") or (ev[0] == "key" and ev[1].lower() != "k"):
             return ("unspec", "outside-domain")
-    return ("ok", [ev[2] for ev in events if ev[0] == "key"])
+    vals = [ev[2] for ev in events if ev[0] == "key"]
+    return ("ok", sorted(vals) if sections else vals)
 
 
 PROBE = {MAIN: "k $a\n"}, {MAIN: "k $b\n"}, {MAIN: "k ${c}\n"}
@@ -165,7 +231,8 @@ PROBE = {MAIN: "k $a\n"}, {MAIN: "k $b\n"}, {MAIN: "k ${c}\n"}
 
 def check(resources):
     """-> (reference outcome, [(sig, detail)])"""
-    ref = reference(resources)
+    ref_table = {}
+    ref = reference(resources, ref_table)
     out = []
     # one loader object serves the whole history: load, the same load again, then the probes
     ZConfig, MemLoader, sch = _zc()
@@ -185,6 +252,13 @@ def check(resources):
     got4 = load_extended(resources)
     if got4 != got1:
         out.append(("extended-loader-differs", "%r with an unrelated override, %r without" % (got4, got1)))
+    # the parser driven by hand with the caller's own table: same outcome, and the table holds
+    # exactly the definitions read (a refused re-definition leaves the first value in place)
+    got5, table = load_by_hand(resources)
+    if got5[:2] != got1[:2]:
+        out.append(("hand-driven-parser-differs", "%r by hand, %r through loadURL" % (got5, got1)))
+    elif ref[0] != "unspec" and got1[0] != "internal" and (ref[0] == "ok") == (got1[0] == "ok") and table != ref_table:
+        out.append(("table-of-definitions-after-the-load", "%r, expected %r (%s)" % (table, ref_table, ref)))
     # and the entry-point way: a new loader per load, same schema object
     got3 = load(resources)
     if got3 != got1:
@@ -219,6 +293,7 @@ def nontrivial(steps):
     seen = {}
     depth_of = {}
     depth = 0
+    sect, in_section, closed_sections = 0, set(), False
     for st in steps:
         if st[0] == "R":
             return True
@@ -226,7 +301,15 @@ def nontrivial(steps):
             depth += 1
         elif st[0] == "]":
             depth = max(0, depth - 1)
+        elif st[0] == "<":
+            sect += 1
+        elif st[0] == ">":
+            # a definition made inside a section that has been closed since
+            sect = max(0, sect - 1)
+            closed_sections = True
         elif st[0] == "d":
+            if sect:
+                in_section.add(st[1].lower())
             n = st[1].lower()
             if n in seen:
                 return True
@@ -239,6 +322,8 @@ def nontrivial(steps):
         else:
             r = st[1].replace("$$", "").strip("${}x")
             n = r.lower()
+            if n in in_section and closed_sections:
+                return True
             if n in seen and (seen[n] != r or depth_of.get(n) != depth):
                 return True
     return False
@@ -258,6 +343,8 @@ def shards(tier, seed):
         specs.append({"kind": "enum", "alpha": "CORE", "len": core_len, "first": i})
     for i, first in enumerate(DEEP):
         specs.append({"kind": "enum", "alpha": "DEEP", "len": 8 if thorough else 7, "first": i})
+    for i, first in enumerate(SECT):
+        specs.append({"kind": "enum", "alpha": "SECT", "len": 7 if thorough else 6, "first": i})
     for i in range(16):
         specs.append({"kind": "random", "seed": seed * 1000 + i,
                       "examples": 3000 if thorough else 300})
@@ -283,7 +370,7 @@ def _run_case(res, steps, resources, by_hash):
 def run_shard(spec):
     res = Result()
     if spec["kind"] == "enum":
-        alpha = {"FULL": FULL, "CORE": CORE, "DEEP": DEEP}[spec["alpha"]]
+        alpha = {"FULL": FULL, "CORE": CORE, "DEEP": DEEP, "SECT": SECT}[spec["alpha"]]
         first = alpha[spec["first"]]
         seen = set()
         for n in range(0, spec["len"]):
